@@ -182,7 +182,9 @@ def run(ck):
                 cfg = warm_config(res["_warm"])
                 prog, enc = M.op_program({"op": op, "rflags": job.get("rflags", 0)}, res, cfg, ps)
                 if prog:
-                    cases.append((len(cases), f"enc_replay_diag {enc} (run_trace ({prog}) {trace_to_coq(res['trace'])} 0)", job, res, tag))
+                    # trace_chain: the judgement of C12_creation_is_one_chain evaluated on the recorded calls themselves (MonitorProofs.chain_sound)
+                    cases.append((len(cases), f"let t := {trace_to_coq(res['trace'])} in enc_replay_diag {enc} (run_trace ({prog}) t 0) ++ "
+                                              f"[(if trace_chain t then 1 else 0)%Z]", job, res, tag))
     if fh_cases:
         evals, cerrs = coq_eval([(c[0], c[1]) for c in fh_cases], header="From PV Require Import FSModel.", tag="c12fh")
         kf = [f for f in ck.known if f["id"] == "F-H-linkbudget"]
@@ -193,14 +195,32 @@ def run(ck):
                 ck.known_finding(kf[0]["id"], kf[0]["what"])
             else:
                 ck.violation("C12: the returned handle is not the in-root resolution of the path in the resulting tree", dict(desc, model=got))
+    if ck.proof_broken and cases:
+        # a proof or tie is broken: the model cannot be trusted, but the monitor needs no model -- use it to look for a concrete trace
+        mevals, _ = coq_eval([(c[0], "let t := %s in [(if trace_chain t then 1 else 0)%%Z]" % trace_to_coq(c[3]["trace"])) for c in cases],
+                             header="From PV Require Import Replay MonitorProofs.", tag="c12m")
+        for cid, term, job, res, tag in cases:
+            if mevals.get(cid) == [0]:
+                ck.violation("C12: the mkdirat/openat calls of a recorded mkdir_all trace do not form one chain (monitor of C12_creation_is_one_chain on the recorded calls)",
+                             {"job": J.describe({"op": job["op"]}), "deny": tag, "outcome": res.get("res"),
+                               "calls": [e for e in res["trace"] if e["c"] in ("unlinkat", "mkdirat", "openat", "openat2", "renameat", "renameat2", "linkat", "symlinkat", "mknodat")][-40:]})
+                break
     if not ck.proof_broken:
-        evals, cerrs = coq_eval([(c[0], c[1]) for c in cases], header="From PV Require Import Replay.", tag="c12")
+        evals, cerrs = coq_eval([(c[0], c[1]) for c in cases], header="From PV Require Import Replay MonitorProofs.", tag="c12")
         if cerrs:
             ck.violation("T1: Coq evaluation of the case files failed", {"log": cerrs[0][-1500:]}, False)
         for cid, term, job, res, tag in cases:
             rep = evals.get(cid)
             if rep is None:
                 continue
+            rep, chain_ok = rep[:-1], rep[-1]
+            stats["monitored"] = stats.get("monitored", 0) + 1
+            if chain_ok != 1:
+                ck.violation("C12: the mkdirat/openat calls of a recorded mkdir_all trace do not form one chain (a mkdirat not on the directory "
+                             "the chain has reached, an open that is not openat(that directory, the name just created, O_NOFOLLOW|O_DIRECTORY), "
+                             "or another tree-changing call)",
+                             {"job": J.describe({"op": job["op"]}), "deny": tag, "outcome": res.get("res"),
+                              "calls": [e for e in res["trace"] if e["c"] in ("mkdirat", "openat", "openat2", "unlinkat", "renameat", "renameat2", "linkat", "symlinkat", "mknodat")][-30:]})
             if rep[0] == 0 and M.outcome_matches(res, rep[2:]):
                 stats["t1_ok"] += 1
             else:
@@ -218,6 +238,7 @@ def run(ck):
                 "racing groups of 2-4 callers on equal/overlapping paths (real threads, barrier); both backends; non-trivial = successful "
                 "calls and races; distinct by (path, created chain length, backend)",
         "samples": samples or [{"note": "none"}],
+        "traces_checked_by_chain_monitor": stats.get("monitored", 0),
         "successful_calls": stats["created_ok"], "failed_calls": stats["failed"], "invalid_modes_refused": stats["mode_refused"],
         "racing_groups": stats["races"], "created_chain_length_histogram": stats["chain_len"],
         "traces_validated_against_impl": stats["t1_ok"], "t1_mismatches": stats["t1_bad"], "disagreements_checked": stats["t1_bad"],
